@@ -35,3 +35,23 @@ func verifYield(site string) {
 		f(site)
 	}
 }
+
+// verifLock / verifUnlock are inserted by the gate rewrite in front of every Lock/RLock and Unlock/RUnlock statement
+// (l = address of the mutex expression, kind = "W" | "R"). Without an installed lock hook verifLock degrades to
+// verifYield (the jitter drivers).
+var verifLockFn func(site string, l interface{}, kind string)
+var verifUnlockFn func(l interface{}, kind string)
+
+func verifLock(site string, l interface{}, kind string) {
+	if f := verifLockFn; f != nil {
+		f(site, l, kind)
+		return
+	}
+	verifYield(site)
+}
+
+func verifUnlock(l interface{}, kind string) {
+	if f := verifUnlockFn; f != nil {
+		f(l, kind)
+	}
+}
